@@ -291,7 +291,7 @@ func runC14Bubble(t *testing.T, tape *sim.Tape, tier string, o *Outcome, schedp 
 func init() {
 	register(&Check{
 		ID: "C14", Bubble: false, Run: runC14, NoShrink: false,
-		Runs:   map[string]int{"quick": 1200, "thorough": 60000},
+		Runs:   map[string]int{"quick": 6000, "thorough": 150000},
 		Rule:   "a case is one run of 3..12 steps; each step releases a seed-chosen batch of 2..8 (thorough ..32) concurrent stimuli (dials, commands of every family incl. CONFIG SET/GET and AUTH, close/reset/half-close, registry queries incl. Close on a returned connection, at most one Start/Stop/Restart) and then waits for quiescence; the harness and the repo are built with -race and a report counts when both access stacks contain a framework frame; distinct = distinct stimulus-batch sequences; non-trivial = the run contains a lifecycle call, registry query or disconnect",
 		Real:   []string{"redis.Server (all of it) under the Go race detector", "reference store (internally locked)"},
 		Stub:   []string{"network: free-running simulated listener/connections with per-object locks only", "scheduler: seed decides stimuli and step boundaries; inside a step the Go runtime runs freely (the verdict is a happens-before property)"},
